@@ -36,6 +36,40 @@ def disparity_range_direct(disp, flags, window_size, marge, factor, user_min, us
     return np.array(mn, dtype=np.float64), np.array(mx, dtype=np.float64)
 
 
+def disparity_range_raw(disp, flags, window_size, marge, factor, disp_min, disp_max, dtype=np.float32):
+    """the real `disparity_range` with ARRAYS of user bounds (NaN allowed) and, for `factor == 1`, the early return that
+    the configuration check never lets a run reach (`_scale_factor` set on the object).  Returns (min map, max map, the
+    disparity map after the call, the validity mask after the call)."""
+    pyr = make_pyramid(max(factor, 2), marge)
+    pyr._scale_factor = factor  # pylint: disable=protected-access
+    rows, cols = np.shape(disp)
+    ds = xr.Dataset(
+        {
+            "disparity_map": (["row", "col"], np.array(disp, dtype=dtype)),
+            "validity_mask": (["row", "col"], np.array(flags, dtype=np.uint16)),
+        },
+        coords={"row": np.arange(rows), "col": np.arange(cols)},
+        attrs={"window_size": int(window_size)},
+    )
+    import warnings
+
+    with warnings.catch_warnings():
+        warnings.simplefilter("ignore")
+        mn, mx = pyr.disparity_range(ds, np.array(disp_min, dtype=np.float64), np.array(disp_max, dtype=np.float64))
+    return (np.array(mn, dtype=np.float64), np.array(mx, dtype=np.float64), np.array(ds["disparity_map"].data, dtype=np.float64),
+            np.array(ds["validity_mask"].data).astype(int))
+
+
+def mask_invalid_raw(disp, flags, dtype=np.float32):
+    """the real `mask_invalid_disparities`: (result, the disparity map afterwards, whether they share memory)"""
+    from pandora.multiscale.multiscale import AbstractMultiscale
+
+    ds = disparity_dataset(np.array(disp, dtype=dtype), flags, 3)
+    out = AbstractMultiscale.mask_invalid_disparities(ds)
+    return np.array(out, dtype=np.float64), np.array(ds["disparity_map"].data, dtype=np.float64), bool(
+        np.shares_memory(out, ds["disparity_map"].data))
+
+
 def live_literals():
     """independent reading of the live source of `disparity_range`: chunk size, arange literals, offset formula"""
     import inspect
